@@ -190,6 +190,88 @@ def _init_holders(fnx, cx, body):
             fnx.holder_locals[1] = cx.holders[_adt_path(body.impl_self)]
 
 
+
+def closure_upvars(cx, body):
+    """for a closure of the crate: which captured variables are (references to) the array, its buffer or one of its
+    dimensions - read off the closure aggregate in the parent body: {upvar index: "toodee" | "data" | ROWS | COLS}"""
+    memo = cx.__dict__.setdefault("_upvars", {})
+    if body.id in memo:
+        return memo[body.id]
+    memo[body.id] = {}
+    out = {}
+    par = cx.f.by_id.get(body.d.get("parent") or "")
+    if par is not None and body.kind == "Closure":
+        pf = Fn.__new__(Fn)
+        pf.cx, pf.b = cx, par
+        pf.d = Dfx(par)
+        pf.toodee_locals = {i for i, ty in enumerate(par.locals) if re.match(r"^&mut %s<" % re.escape(cx.toodee_path), norm_ty(ty))}
+        pf.datarefs = set()
+        _seed_refs(pf, cx, par, False)
+        for bi, si, st in par.stmts():
+            rv = st.get("rv") or {}
+            if st["k"] == "assign" and rv.get("k") == "agg" and rv.get("agg") == "closure" and rv.get("def") == body.id:
+                for i, o in enumerate(rv["fields"]):
+                    if o["k"] not in ("copy", "move"):
+                        continue
+                    l = o["p"]["local"]
+                    if o["p"]["proj"]:
+                        continue
+                    if l in pf.datarefs:
+                        out[i] = "data"
+                    elif l in pf.toodee_locals or l in pf.toodeerefs:
+                        out[i] = "toodee"
+                    elif l in pf.dimrefs:
+                        out[i] = pf.dimrefs[l]
+    memo[body.id] = out
+    return out
+
+
+def _seed_refs(fnx, cx, body, mark_live):
+    """locals that hold a reference to the array's buffer (datarefs), to one of its dimensions (dimrefs), guards holding
+    the buffer (holder_locals); for a closure, the captured variables that are such references (upv)"""
+    fnx.dimrefs = {}
+    fnx.toodeerefs = set()
+    fnx.upv = {}
+    _init_holders(fnx, cx, body)
+    if body.kind == "Closure":
+        fnx.upv = closure_upvars(cx, body)
+    changed = True
+    while changed:
+        changed = False
+        for bi, si, st in body.stmts():
+            if st["k"] != "assign" or st["p"]["proj"]:
+                continue
+            l = st["p"]["local"]
+            if l in fnx.datarefs or l in fnx.holder_locals or l in fnx.dimrefs or l in fnx.toodeerefs:
+                continue
+            rv = st["rv"]
+            if rv["k"] == "agg" and rv.get("agg") == "adt" and norm_ty(rv["adt"]) in cx.holders:
+                fi_ = cx.holders[norm_ty(rv["adt"])]
+                o_ = rv["fields"][fi_] if fi_ < len(rv["fields"]) else None
+                if o_ and o_["k"] in ("copy", "move") and (o_["p"]["local"] in fnx.datarefs or fnx.is_data_place(o_["p"])):
+                    fnx.holder_locals[l] = fi_
+                    if mark_live:
+                        cx.live_holders.add(norm_ty(rv["adt"]))
+                    changed = True
+                continue
+            src = rv["p"] if rv["k"] in ("ref", "rawptr") else (rv["o"]["p"] if rv["k"] == "use" and rv["o"]["k"] in ("copy", "move") else None)
+            if src is None:
+                continue
+            uv = fnx._upvar_ref(src)
+            if uv == "data" or fnx.is_data_place(src) or (src["local"] in fnx.datarefs and all(e["k"] == "deref" for e in src["proj"])):
+                fnx.datarefs.add(l)
+                changed = True
+            elif uv == "toodee" or (src["local"] in fnx.toodeerefs and all(e["k"] == "deref" for e in src["proj"])) or (rv["k"] == "ref" and src["local"] in fnx.toodee_locals and not src["proj"]):
+                fnx.toodeerefs.add(l)
+                changed = True
+            elif uv in (cx.ROWS, cx.COLS) or (src["local"] in fnx.dimrefs and all(e["k"] == "deref" for e in src["proj"])):
+                fnx.dimrefs[l] = uv if uv in (cx.ROWS, cx.COLS) else fnx.dimrefs[src["local"]]
+                changed = True
+            elif rv["k"] in ("ref", "rawptr") and rv.get("mut") and fnx.dim_field(src) is not None:
+                fnx.dimrefs[l] = fnx.dim_field(src)
+                changed = True
+
+
 def _adt_path(ty):
     t = norm_ty(ty)
     while True:
@@ -224,38 +306,44 @@ class Fn:
         b = body
         self.toodee_locals = {i for i, ty in enumerate(b.locals) if re.match(r"^&('\S+ )?mut %s<" % re.escape(cx.toodee_path), norm_ty(ty).replace("&mut ", "&mut ")) or re.match(r"^&mut %s<" % re.escape(cx.toodee_path), norm_ty(ty))}
         self.datarefs = set()
-        _init_holders(self, cx, b)
-        changed = True
-        while changed:
-            changed = False
-            for bi, si, st in b.stmts():
-                if st["k"] != "assign" or st["p"]["proj"]:
-                    continue
-                l = st["p"]["local"]
-                if l in self.datarefs or l in self.holder_locals:
-                    continue
-                rv = st["rv"]
-                if rv["k"] == "agg" and rv.get("agg") == "adt" and norm_ty(rv["adt"]) in cx.holders:
-                    fi_ = cx.holders[norm_ty(rv["adt"])]
-                    o_ = rv["fields"][fi_] if fi_ < len(rv["fields"]) else None
-                    if o_ and o_["k"] in ("copy", "move") and (o_["p"]["local"] in self.datarefs or self.is_data_place(o_["p"])):
-                        self.holder_locals[l] = fi_
-                        changed = True
-                    continue
-                src = None
-                if rv["k"] in ("ref", "rawptr"):
-                    src = rv["p"]
-                elif rv["k"] == "use" and rv["o"]["k"] in ("copy", "move"):
-                    src = rv["o"]["p"]
-                if src is None:
-                    continue
-                if self.is_data_place(src) or (src["local"] in self.datarefs and all(e["k"] == "deref" for e in src["proj"])):
-                    self.datarefs.add(l)
-                    changed = True
+        _seed_refs(self, cx, b, False)
         self.writes = self._find_writes()
 
     # ---- places
+    def _upvar_ref(self, p):
+        """`(*_1).i` (the captured reference itself, nothing dereferenced after the field) -> what it refers to"""
+        upv = getattr(self, "upv", None)
+        if not upv or p["local"] != 1:
+            return None
+        pr = [e for e in p["proj"]]
+        while pr and pr[0]["k"] == "deref":
+            pr = pr[1:]
+        if len(pr) == 1 and pr[0]["k"] == "field":
+            return upv.get(pr[0]["i"])
+        return None
+
+    def _through_upvar(self, p):
+        """a place reached through a captured reference: -> (what the capture refers to, projection below the referent)"""
+        upv = getattr(self, "upv", None)
+        if not upv or p["local"] != 1:
+            return None, None
+        pr = [e for e in p["proj"]]
+        while pr and pr[0]["k"] == "deref":
+            pr = pr[1:]
+        if pr and pr[0]["k"] == "field" and pr[0]["i"] in upv and len(pr) > 1 and pr[1]["k"] == "deref":
+            rest = pr[2:]
+            while rest and rest[0]["k"] == "deref":
+                rest = rest[1:]
+            return upv[pr[0]["i"]], rest
+        return None, None
+
     def is_data_place(self, p):
+        what, rest = self._through_upvar(p)
+        if what == "data" and not rest:
+            return True
+        if what == "toodee" or p["local"] in getattr(self, "toodeerefs", ()):
+            fs = [e for e in (rest if what == "toodee" else p["proj"]) if e["k"] == "field"]
+            return len(fs) == 1 and fs[0]["i"] == self.cx.DATA
         if p["local"] in self.toodee_locals:
             fs = [e for e in p["proj"] if e["k"] == "field"]
             return len(fs) == 1 and fs[0]["i"] == self.cx.DATA
@@ -267,6 +355,16 @@ class Fn:
         return False
 
     def dim_field(self, p):
+        what, rest = self._through_upvar(p)
+        if what in (self.cx.ROWS, self.cx.COLS) and not rest:
+            return what
+        if p["local"] in getattr(self, "dimrefs", {}) and p["proj"] and all(e["k"] == "deref" for e in p["proj"]):
+            return self.dimrefs[p["local"]]
+        if what == "toodee" or p["local"] in getattr(self, "toodeerefs", ()):
+            pr = rest if what == "toodee" else p["proj"]
+            fs = [e for e in pr if e["k"] == "field"]
+            if len(fs) == 1 and fs[0]["i"] in (self.cx.ROWS, self.cx.COLS) and not [e for e in pr if e["k"] not in ("field", "deref")]:
+                return fs[0]["i"]
         if p["local"] in self.toodee_locals:
             fs = [e for e in p["proj"] if e["k"] == "field"]
             if len(fs) == 1 and fs[0]["i"] in (self.cx.ROWS, self.cx.COLS) and len([e for e in p["proj"] if e["k"] not in ("field", "deref")]) == 0:
@@ -637,31 +735,7 @@ def is_shape_writer(cx, body, direct=False):
     fnx.d = Dfx(body)
     fnx.toodee_locals = {i for i, ty in enumerate(body.locals) if re.match(r"^&mut %s<" % re.escape(cx.toodee_path), norm_ty(ty))}
     fnx.datarefs = set()
-    _init_holders(fnx, cx, body)
-    changed = True
-    while changed:
-        changed = False
-        for bi, si, st in body.stmts():
-            if st["k"] != "assign" or st["p"]["proj"]:
-                continue
-            l = st["p"]["local"]
-            if l in fnx.datarefs or l in fnx.holder_locals:
-                continue
-            rv = st["rv"]
-            if rv["k"] == "agg" and rv.get("agg") == "adt" and norm_ty(rv["adt"]) in cx.holders:
-                fi_ = cx.holders[norm_ty(rv["adt"])]
-                o_ = rv["fields"][fi_] if fi_ < len(rv["fields"]) else None
-                if o_ and o_["k"] in ("copy", "move") and (o_["p"]["local"] in fnx.datarefs or fnx.is_data_place(o_["p"])):
-                    fnx.holder_locals[l] = fi_
-                    cx.live_holders.add(norm_ty(rv["adt"]))
-                    changed = True
-                continue
-            src = rv["p"] if rv["k"] in ("ref", "rawptr") else (rv["o"]["p"] if rv["k"] == "use" and rv["o"]["k"] in ("copy", "move") else None)
-            if src is None:
-                continue
-            if fnx.is_data_place(src) or (src["local"] in fnx.datarefs and all(e["k"] == "deref" for e in src["proj"])):
-                fnx.datarefs.add(l)
-                changed = True
+    _seed_refs(fnx, cx, body, True)
     w = False
     for bi, bl in enumerate(body.blocks):
         if any(fnx._is_write_stmt(st) for st in bl["stmts"]) or fnx._is_write_term(bl["term"], direct=direct):
@@ -717,6 +791,9 @@ def r_shape(f):
     # private helpers that write the shape may legitimately return in an intermediate state: they are analysed in the
     # context of every caller (transfer through the call, unwind states propagated), and their callers are writers
     cx.helpers = {b.id for b in f.fn_bodies if b.kind != "Closure" and not exported(b) and not b.d.get("derived") and is_shape_writer(cx, b)}
+    # a closure that writes the shape through captured references and is called directly by the crate is a helper as well
+    called = {f.crate_fn_for_call(fn).id for b in f.fn_bodies for _, _, fn in b.calls(include_cleanup=True) if fn and f.crate_fn_for_call(fn) is not None}
+    cx.helpers |= {b.id for b in f.fn_bodies if b.kind == "Closure" and b.id in called and is_shape_writer(cx, b)}
 
     def calls_helper(b):
         return any(fn and (f.crate_fn_for_call(fn) is not None) and f.crate_fn_for_call(fn).id in cx.helpers and f.crate_fn_for_call(fn).id != b.id for _, _, fn in b.calls(include_cleanup=True))
